@@ -92,6 +92,12 @@ func VerifH10p() {
 	var union []*stub.Series
 	zombie := false
 	parts := [][]*stub.Series{nil, nil}
+	// shapes that repeat a mechanism another shape already covers are thorough-tier only
+	later := map[string]bool{`sum(sum by (a) (foo))`: true, `max(max by (a) (foo))`: true, `group without (a, b) (foo)`: true,
+		`count without (b) (foo)`: true, `quantile(0.5, foo)`: true, `stddev(foo)`: true, `count by (b) (foo)`: true}
+	if sym.Tier(0, 1) == 0 && later[qs] {
+		sym.Stop()
+	}
 	// quick: two series; thorough: three series for six of the shapes
 	three := map[string]bool{`count(foo)`: true, `foo`: true, `avg(foo)`: true, `sum by (b) (foo)`: true, `sum(foo)`: true, `count(count by (a) (foo))`: true}
 	if sym.Tier(0, 1) == 0 || !three[qs] {
